@@ -164,7 +164,10 @@ func genC16(r *h.Rand) c16cfg {
 		if r.Chance(20) {
 			t.Set("exportAs", "EXPORTED_"+name)
 		}
-		if r.Chance(40) {
+		if r.Chance(6) {
+			// one very long line (a description of 70 KiB): more than a line-oriented reader's default buffer
+			t.Set("description", "long "+strings.Repeat("0123456789", 7000)+" end")
+		} else if r.Chance(40) {
 			t.Set("description", "does "+name+[]string{"", " /* quietly */", " (see docs/**/*.md, */README)", " [fast,]", " // twice", " # not a comment"}[r.Intn(6)])
 		}
 		if r.Chance(15) {
